@@ -1,10 +1,10 @@
 --------------------------- MODULE Trace_Checkpointer ---------------------------
 (* Validation of traces recorded from the real db.Checkpointer (harness/db/c17_checkpointer_test.go).
-   Lines:  {a:"Reset", th, fo}   {a:"Expect"|"AlreadyKnown"|"Processed", tok, E, P}   {a:"Tick", ret, E, P}
+   Lines:  {a:"Reset", th}   {a:"Expect"|"AlreadyKnown"|"Processed", toks, E, P}   {a:"Tick", ret, E, P}
    E/P/ret are the REAL expectedSeqs / processedSeqs / returned value after the call (ranks). *)
 EXTENDS Checkpointer, TraceLib
 
-UTrace == {k \in Tok : TRUE}
+UTrace == {}   \* Universe is only used by Next of the base spec, never by the trace specs
 VARIABLE l
 tvars == <<vars, l>>
 
@@ -21,22 +21,22 @@ TInit == Init /\ l = 1
 
 Reset == /\ Ev("Reset")
          /\ expected' = <<>> /\ processed' = {} /\ ret' = None
-         /\ threshold' = Trace[l].th /\ feedOrdered' = Trace[l].fo
+         /\ threshold' = Trace[l].th /\ restrict' = FALSE /\ feedOrdered' = TRUE
          /\ everExp' = {} /\ everProc' = {} /\ ckpts' = <<>> /\ shE' = <<>> /\ shP' = {} /\ shRet' = None
          /\ dupFree' = TRUE /\ hist' = <<>>
 
 (* pass P: implementation variables := logged real state; ghosts advance from the logged inputs *)
-PExpect       == Ev("Expect")       /\ Logged /\ GhostExpect(T2(Trace[l].tok))       /\ UNCHANGED hist
-PAlreadyKnown == Ev("AlreadyKnown") /\ Logged /\ GhostAlreadyKnown(T2(Trace[l].tok)) /\ UNCHANGED hist
-PProcessed    == Ev("Processed")    /\ Logged /\ GhostProcessed(T2(Trace[l].tok))    /\ UNCHANGED hist
+PExpect       == Ev("Expect")       /\ Logged /\ GhostExpect(LSeq(Trace[l].toks))       /\ UNCHANGED hist
+PAlreadyKnown == Ev("AlreadyKnown") /\ Logged /\ GhostAlreadyKnown(LSeq(Trace[l].toks)) /\ UNCHANGED hist
+PProcessed    == Ev("Processed")    /\ Logged /\ GhostProcessed(T2(Trace[l].toks[1]))    /\ UNCHANGED hist
 PTick         == Ev("Tick")         /\ Logged /\ GhostTick                            /\ UNCHANGED hist
 PNext == Reset \/ PExpect \/ PAlreadyKnown \/ PProcessed \/ PTick
 PSpec == TInit /\ [][PNext]_tvars
 
 (* pass C: each logged step is an instance of the corresponding action, from the previous REAL state *)
-CExpect       == Ev("Expect")       /\ ImplExpect(T2(Trace[l].tok))       /\ Logged /\ GhostExpect(T2(Trace[l].tok))       /\ UNCHANGED hist
-CAlreadyKnown == Ev("AlreadyKnown") /\ ImplAlreadyKnown(T2(Trace[l].tok)) /\ Logged /\ GhostAlreadyKnown(T2(Trace[l].tok)) /\ UNCHANGED hist
-CProcessed    == Ev("Processed")    /\ ImplProcessed(T2(Trace[l].tok))    /\ Logged /\ GhostProcessed(T2(Trace[l].tok))    /\ UNCHANGED hist
+CExpect       == Ev("Expect")       /\ ImplExpect(LSeq(Trace[l].toks))       /\ Logged /\ GhostExpect(LSeq(Trace[l].toks))       /\ UNCHANGED hist
+CAlreadyKnown == Ev("AlreadyKnown") /\ ImplAlreadyKnown(LSeq(Trace[l].toks)) /\ Logged /\ GhostAlreadyKnown(LSeq(Trace[l].toks)) /\ UNCHANGED hist
+CProcessed    == Ev("Processed")    /\ ImplProcessed(T2(Trace[l].toks[1]))    /\ Logged /\ GhostProcessed(T2(Trace[l].toks[1]))    /\ UNCHANGED hist
 CTick         == Ev("Tick")         /\ ImplTick                            /\ Logged /\ GhostTick                            /\ UNCHANGED hist
 CNext == Reset \/ CExpect \/ CAlreadyKnown \/ CProcessed \/ CTick
 CSpec == TInit /\ [][CNext]_tvars
